@@ -14,21 +14,37 @@ import (
 	"google.golang.org/protobuf/reflect/protoregistry"
 )
 
+// maxDecodeDepth is the deepest nesting of objects, oneofs, maps and any values
+// the decoder accepts. Each level is a handful of stack frames, the input must
+// not decide how many of those there are.
+const maxDecodeDepth = 10000
+
 func (c *Codec) decode(jsonData []byte, msg protoreflect.Message) error {
+	return c.decodeNested(jsonData, msg, 0)
+}
+
+// decodeNested decodes a message which is itself nested depth levels deep in
+// the document being decoded (the value of an Any).
+func (c *Codec) decodeNested(jsonData []byte, msg protoreflect.Message, depth int) error {
 	root, err := c.refl.NewRoot(msg)
 	if err != nil {
 		return err
 	}
 
-	return c.decodeRoot(jsonData, root)
+	return c.decodeRootNested(jsonData, root, depth)
 }
 
 func (c *Codec) decodeRoot(jsonData []byte, root j5reflect.Root) error {
+	return c.decodeRootNested(jsonData, root, 0)
+}
+
+func (c *Codec) decodeRootNested(jsonData []byte, root j5reflect.Root, depth int) error {
 	dec := json.NewDecoder(bytes.NewReader(jsonData))
 	dec.UseNumber()
 	d2 := &decoder{
 		jd:    dec,
 		codec: c,
+		depth: depth,
 	}
 
 	switch schema := root.(type) {
@@ -45,6 +61,9 @@ func (c *Codec) decodeRoot(jsonData []byte, root j5reflect.Root) error {
 type decoder struct {
 	jd    *json.Decoder
 	codec *Codec
+
+	// depth is the number of JSON objects the decoder is currently inside
+	depth int
 }
 
 func (d *decoder) Token() (json.Token, error) {
@@ -81,6 +100,12 @@ func (dec *decoder) expectDelim(delim rune) error {
 }
 
 func (dec *decoder) jsonObjectBody(callback func(key string) error) error {
+	if dec.depth >= maxDecodeDepth {
+		return fmt.Errorf("exceeded max depth of %d", maxDecodeDepth)
+	}
+	dec.depth++
+	defer func() { dec.depth-- }()
+
 	for dec.jd.More() {
 		keyToken, err := dec.Token()
 		if err != nil {
@@ -479,7 +504,7 @@ func (dec *decoder) decodeAny(prop j5reflect.Property) error {
 		}
 		msg := innerDesc.New()
 
-		if err := dec.codec.decode(valueBytes, msg); err != nil {
+		if err := dec.codec.decodeNested(valueBytes, msg, dec.depth); err != nil {
 			return newFieldError(*constrainType, err.Error())
 		}
 
